@@ -19,7 +19,7 @@ RULE = ("random registration tables (<=4 routers, <=6 names, <=3 queues, overrid
 ASSUMPTIONS = ["Redis and RabbitMQ are wire-level fakes (RabbitMQ: requeue returns a message to its original position)", "virtual time",
                "own messages behind foreign ones must be executed within 20 s + 1 s per message of virtual time"]
 EVAL_COUNTER = "jobs_judged"
-REQUIRED = ["jobs_judged", "own_executed", "foreign_left_alone", "overrides_across_queues", "two_worker_runs", "tables_with_bystander_workers"]
+REQUIRED = ["jobs_judged", "own_executed", "foreign_left_alone", "overrides_across_queues", "two_worker_runs", "tables_with_bystander_workers", "crowded_queues"]
 CASE_TIMEOUT = 150
 
 NAMES = ["alpha", "alpha2", "al", "beta", "gamma", "delta"]  # names that are prefixes of each other: topic filters must match whole names
@@ -43,7 +43,8 @@ def gen_cases(tier, seed):
             # every third table: the worker under test serves only the first routers, while other Worker objects built
             # from the same Router objects (all of them / the rest) exist in the process - they must not influence it
             sub = rnd.randint(1, nr) if (i % 3 == 1 and nr > 1) else None
-            cases.append({"type": "table", "kind": kind, "regs": regs, "sub": sub, "tl": rnd.choice([1, 3, 1000]), "seed": rnd.randrange(10**6),
+            crowd = rnd.choice([10, 12, 21]) if i % 5 == 2 else None
+            cases.append({"type": "table", "kind": kind, "regs": regs, "sub": sub, "crowd": crowd, "tl": 1000 if crowd else rnd.choice([1, 3, 1000]), "seed": rnd.randrange(10**6),
                           "latency": None if kind == "mem" else rnd.choice([None, 0.002])})
         for i in range({"quick": 4, "thorough": 30}[tier]):
             cases.append({"type": "two", "kind": kind, "n": rnd.choice([6, 14]), "tl": rnd.choice([1, 3, 1000]), "seed": rnd.randrange(10**6),
@@ -102,6 +103,13 @@ async def table_scenario(loop, case, out, stats, fps, samples):
         combos = combos[: rnd.randint(6, 18)]
         # make sure own messages sit behind foreign ones
         combos.sort(key=lambda nq: 0 if (nq[0] not in winning or winning[nq[0]][0] != nq[1]) else rnd.choice([0, 1]))
+        if case.get("crowd") and winning:
+            # a dozen messages nobody here has an actor for, all in ONE served queue and all older than the worker's own
+            # (more than any fetch window); the worker has room for all of them (tasks_limit 1000)
+            cq = sorted({q for q, _ in winning.values()})[0]
+            own_name = next(n for n, (q, _) in winning.items() if q == cq)
+            combos = [("nobody_" + str(k), cq) for k in range(case["crowd"])] + [(own_name, cq), (own_name, cq)] + combos[:4]
+            stats["crowded_queues"] += 1
         for i, (name, q) in enumerate(combos):
             id_ = f"j{i:03d}"
             own = name in winning and winning[name][0] == q
